@@ -135,12 +135,33 @@ class Result(object):
                 "viol": list(self.viol.items())}
 
 
+def _start_cover(modname, idx):
+    """Development aid (tools/cover.py): with VERIF_COVER=<dir> every shard records which lines of the
+    lena tree under test it executes (coverage.py on sys.monitoring, so the sys.settrace step watchdog
+    stays free). Off by default; no verdict depends on it."""
+    cdir = os.environ.get("VERIF_COVER")
+    if not cdir:
+        return None
+    os.environ["COVERAGE_CORE"] = "sysmon"
+    import coverage
+    cov = coverage.Coverage(data_file=os.path.join(cdir, "%s.%d" % (modname.rsplit(".", 1)[-1], idx)),
+                            include=[os.path.join(REPO, "lena", "*")], config_file=False)
+    cov.start()
+    return cov
+
+
 def _worker(args):
     modname, idx, params, tier = args
     t0 = time.time()
     try:
         mod = importlib.import_module(modname)
-        res = mod.run_shard(params, tier)
+        cov = _start_cover(modname, idx)
+        try:
+            res = mod.run_shard(params, tier)
+        finally:
+            if cov is not None:
+                cov.stop()
+                cov.save()
         if not isinstance(res, Result):
             raise TypeError("run_shard must return mc.core.Result")
         return idx, res.pack(), None, time.time() - t0
